@@ -256,6 +256,26 @@ def evaluate(case):
                 STOP_ON = case["end"]
                 LADDER_FORMAT = bool(case["ladder"])
             got = MObj.read_list(ws)
+        elif entry == "mixin_interleaved":
+            # two reads of the same reader class alive at once: the first sheet is read lazily (iter_xls) and, after its
+            # first object, another sheet with the same columns in reverse order is read completely
+            class IObj(X.XlsObject, X.TableReader):
+                _ATTRS = [a["name"] for a in attrs]
+                _NUM_ID_ATTRS = nid
+                ATTR_RULES = rules
+                STOP_ON = case["end"]
+                LADDER_FORMAT = bool(case["ladder"])
+            it = iter(IObj.iter_xls(ws))
+            got = []
+            for o in it:
+                got.append(o)
+                break
+            try:
+                list(IObj.iter_xls(WS("Other", [row[:lead] + row[lead:][::-1] for row in grid])))
+            except Exception:   # noqa   (the mirrored sheet need not be a valid one)
+                pass
+            got.extend(it)
+            classes.add("lazy_read_interleaved_with_a_read_of_another_sheet")
         elif entry == "mixin_subclass":
             # a reader class that inherits from another reader class and overrides ATTR_RULES; the parent class is used first
             alt = []
@@ -510,7 +530,7 @@ def st_case(draw):
             extra.insert(0, {"title": "", "conv": "str", "attr": None})
         cols = cols[:p2] + extra + cols[p2:]
     second = None
-    entry = draw(st.sampled_from(["iter_table", "read_table", "read_table", "mixin", "two_readers", "mixin_subclass"]))
+    entry = draw(st.sampled_from(["iter_table", "read_table", "read_table", "mixin", "two_readers", "mixin_subclass", "mixin_interleaved"]))
     if entry == "two_readers":
         # second object class reads (as plain str) some of the same known columns
         cand = [c for c in cols if c["attr"] is not None]
